@@ -361,7 +361,11 @@ def replay(prop, payload):
     try:
         C = Comp(dict(seed=0, tier='quick'), '')
         if payload.get('recipe'):
-            run_recipe(C, drv, payload['recipe'])
+            # (object-address reuse decides whether the 'copies' recipe hits: a few attempts)
+            for attempt in range(6 if payload['recipe'].get('kind') == 'copies' else 1):
+                run_recipe(C, drv, payload['recipe'])
+                if any(i['layer'] == 'oracle' for i in C.issues):
+                    break
         else:
             root = decode(payload['tree'])
             check_tree(C, drv, root, 'replay')
